@@ -65,7 +65,12 @@ def setup(eng):
     eng.builtins["__builtins__"] = None
     gm = eng.load_module(MOD)
     gcls = eng.module_global(gm, "XmlGenerator")
-    g = VObj(gcls, {"xml": VDict()})
+    # the generator as its REAL constructor makes it (so that every field __init__ sets exists)
+    try:
+        g = eng.call(gcls, [], {})
+    except (Unsupported, PyRaise):
+        g = VObj(gcls, {})
+    g.fields["xml"] = VDict()
     return g, AstFactory(eng)
 
 
@@ -102,6 +107,25 @@ def h_expression(eng):
     kids = [marker("op%d" % i) for i in range(n)]
     for o, k in zip(operands, kids):
         ops.setitem(eng, g.fields["xml"], o, k)
+    # the expression may be met inside a tree whose top level also holds the functions flatten() pulled up beside the model, stored
+    # under their full names: a call of Lib.f is the operator "Lib.f", whatever the class object of Lib.f calls itself
+    in_tree = bool(eng.choice(2))
+    eng.input("met_inside_a_tree_with_pulled_up_functions", in_tree)
+    if in_tree:
+        fcls = A.new("Class", name="f", type="function")
+        mcls = A.new("Class", name="M", type="model")
+        top = A.new("Tree")
+        ops.setitem(eng, top.fields["classes"], "Lib.f", fcls)
+        ops.setitem(eng, top.fields["classes"], "M", mcls)
+        try:
+            enter = eng.getattr(g, "enterTree", None, None)
+        except PyRaise:
+            enter = None
+        if enter is not None:
+            eng.call(enter, [top], {})
+        if eng.choice(2):
+            op = "Lib.f"
+            eng.input("operator_is_the_pulled_up_function", True)
     tree = A.expr(A.ref("f") if op_is_ref else op, *operands)
     if op_is_ref:
         tree.fields["operator"].fields["name"] = op
